@@ -59,20 +59,24 @@ def run(ctx):
     # loss-class findings (datagram never delivered) and kernel-drop excuses are decided by one
     # isolated, still paced re-run of exactly that history: reproduced with zero kernel drops ->
     # violation; drops again -> inconclusive; clean -> scheduling noise of the shared machine.
-    for b, mode, i in sorted(suspects)[:40]:
+    MAX_RERUN = 24
+
+    def rerun(b, mode, i):
         out = os.path.join(ctx.tmp, f"iso-{vf.flavor_of(b)}-{mode}-{i}.jsonl")
-        rr = vf.run_harness(b, ["--mode", mode, "--seed", ctx.seed, "--from", i, "--count", 1, "--isolated", 1,
-                                "--out", out], timeout=1800, out_file=out)
+        return mode, i, vf.run_harness(b, ["--mode", mode, "--seed", ctx.seed, "--from", i, "--count", 1,
+                                           "--isolated", 1, "--out", out], timeout=1800, out_file=out)
+    todo = sorted(suspects)[:MAX_RERUN]
+    for mode, i, rr in vf.run_many(ctx, [lambda t=t: rerun(*t) for t in todo], workers=4):
         ctx.ingest(rr, where=f"(isolated re-run {mode}/{i}, {rr.flavor})")
         ctx.obs("loss_suspects_rerun_in_isolation")
         if rr.timed_out or rr.rc not in (0, 86, 87):
             ctx.inconcl(f"isolated re-run of history {mode}/{i} ({rr.flavor}) rc={rr.rc} timed_out={rr.timed_out}")
-    if len(suspects) > 40:
-        ctx.inconcl(f"{len(suspects)} histories with undelivered datagrams; only 40 re-run in isolation")
+    if len(suspects) > MAX_RERUN:
+        ctx.inconcl(f"{len(suspects)} histories with undelivered datagrams; only {MAX_RERUN} re-run in isolation")
 
     ctx.rule = (
         "history = fresh Transport::udp (edge/level triggered, batched/unbatched loop, small SO_SNDBUF, small write queue, "
-        "ioReadChunk 65536|65507) with 1-2 listeners and 2-8 raw UDP peers; 30-70 seeded steps out of {peer batch -> listener, "
+        "ioReadChunk 65536|65507) with 1-2 listeners and 2-8 raw UDP peers on 127.0.0.1 or ::1; 30-70 seeded steps out of {peer batch -> listener, "
         "peer -> connected session, foreign peer -> connected port, send on open/closed/unknown session, sends to several "
         "destinations under an injected EAGAIN burst, connect, connectViaListener (biased to peers that already have a "
         "receiving session), close (biased to *other* sessions of such a peer), oversize send (error close), both-way burst "
@@ -85,9 +89,9 @@ def run(ctx):
         "that peer's datagrams there and no new accept for it occurs, whatever else is closed. distinct = hash of the "
         "configuration coordinates and of which of those situations the history actually reached")
     ctx.assumptions = [
-        "loopback only; IPv4 only; maxSessions unlimited and ioReadChunk >= 65507 (a smaller configured chunk or a session cap drops/cuts by configuration)",
+        "loopback only (127.0.0.1; ::1 in ~15 % of the histories, one family per history); maxSessions unlimited and ioReadChunk >= 65507 (a smaller configured chunk or a session cap drops/cuts by configuration)",
         "EAGAIN from send/sendto is injected for iora's I/O thread by interposition (a legal kernel answer; real loopback sockets never fill their send buffer); payloads are never altered",
-        "a datagram is 'delivered by the kernel' when sendto returned its full length and the drops column of /proc/net/udp for the destination socket stayed 0; raw sockets additionally report SO_RXQ_OVFL",
+        "a datagram is 'delivered by the kernel' when sendto returned its full length and the drops column of /proc/net/udp{,6} for the destination socket stayed 0; raw sockets additionally report SO_RXQ_OVFL",
         "an undelivered datagram counts only when an isolated re-run of the same history reproduces it with zero kernel drops",
         "the receiving session is tracked per (address the peer sent to, peer address); iora keys its index by peer address only, which this rule tolerates",
         "idle expiry uses real time (1 s idle timeout, 1 s GC interval): a keep-alive delayed beyond 1 s on a loaded machine weakens a history, it cannot produce a false alarm",
@@ -99,7 +103,7 @@ def run(ctx):
         "idle_expiry_of_other_session_while_receiving_session_open", "closes_by_app", "closes_idle_expiry", "closes_on_error",
         "eagain_injected", "eagain_injected_on_listener_socket", "eagain_injected_on_connected_socket",
         "eagain_bursts_with_several_destinations_queued", "delivered_65507", "wire_65507", "delivered_lt_16", "wire_lt_16",
-        "histories_two_listeners", "histories_batched_loop", "histories_level_triggered", "histories_small_sndbuf",
+        "histories_two_listeners", "histories_ipv6", "histories_batched_loop", "histories_level_triggered", "histories_small_sndbuf",
         "histories_small_write_queue", "kernel_drop_counters_read", "step_burst_both_ways",
         "step_send_on_closed_or_unknown_session", "foreign_datagram_to_connected_port_not_delivered")
 
